@@ -587,3 +587,176 @@ Proof.
   rewrite <- app_assoc. reflexivity.
 Qed.
 Print Assumptions tr_rstr_make_simple.
+
+(* ------------------------------------------------------------------ the chain pattern string -> rstr_make -> rstr_find = the declarative spec *)
+(* For every pattern string p in memory that the classifier accepts (ignore-case = flg & RE_ICASE), rstr_make returns a struct, and on the
+   memory it leaves, for EVERY newline-terminated line in a block that existed before, every group count and flag word, the translated
+   rstr_find returns the leftmost position at which the declarative spec holds (group 0; groups >= 1 unset), or -1 with the memory
+   unchanged.  No hypothesis about the struct is left: it is the one the C text built. *)
+Theorem tr_rstr_make_find_spec (m : mem) bp (p : bytes) flg rs sb gb content n flg2 (gold : block) d fuel :
+  let ic := nz (Z.land flg RE_ICASE) in
+  str_at m bp p -> nonul p -> ~ In 10%N p -> nth_error m G_meta = Some gb_meta -> rstr_simple ic p = Some rs ->
+  nonul content -> ~ In 10%N content -> str_at m sb (content ++ [10%N]) -> nth_error m gb = Some gold -> length gold = (2 * Z.to_nat n)%nat ->
+  2 * n <= 2147483647 -> Z.of_nat (length p) < 2147483647 -> Z.of_nat (length content) < 2147483647 ->
+  (length p < fuel)%nat -> (length content + Z.to_nat n + 2 < fuel)%nat ->
+  exists m',
+    callf cprog fuel (S (S d)) F_rstr_make [VPtr bp 0; VInt flg] m = Ok (VPtr (S (length m)) 0, m') /\
+    (forall b, (b < length m)%nat -> nth_error m' b = nth_error m b) /\
+    callf cprog fuel (S (S d)) F_rstr_find [VPtr (S (length m)) 0; VPtr sb 0; VInt n; VPtr gb 0; VInt flg2] m' =
+    match spec_find (spat_of rs) ic (nz (Z.land flg2 RE_NOTBOL)) content with
+    | Some i => Ok (VInt 0, upd m' gb (grp_block (rstr_groups (Z.to_nat n) (Z.of_nat i) (Z.of_nat (i + length (r_str rs))))))
+    | None => Ok (VInt (-1), m')
+    end.
+Proof.
+  intros ic Hp Hnn Hp10 Hlit Hsim Hc Hc10 Hsb Hgb Hgl Hn2 Hpm Hcm Hf1 Hf2.
+  pose proof (rstr_simple_off p Hnn 0 ltac:(lia) ic) as Hoff. cbn [skipn] in Hoff. rewrite Hsim in Hoff.
+  destruct (so_simple p 0) eqn:Es; [|discriminate]. injection Hoff as Hrs.
+  pose proof (tr_rstr_make_simple m bp p 0 flg d fuel Hp Hnn ltac:(lia) Hlit Hpm Hf1 Es) as T. change (Z.of_nat 0) with 0 in T.
+  eexists. split; [exact T|].
+  assert (Hold : forall b (blk : block), nth_error m b = Some blk ->
+            nth_error (m ++ [[VPtr bp 0]; rstr_block (S (S (length m))) (Z.land flg 1) (b2z (so_lbeg p 0)) (b2z (so_lend p 0)) (b2z (so_wbeg p 0)) (b2z (so_wend p 0));
+                             cstr_block (zb (so_lit p 0))]) b = Some blk).
+  { intros b blk H. rewrite nth_error_app1; [exact H|]. apply nth_error_Some. congruence. }
+  split; [intros b Hb; apply nth_error_app1; exact Hb|].
+  apply (tr_rstr_find_spec _ (S (length m)) (S (S (length m))) sb gb ic p rs content n flg2 gold d fuel Hsim Hnn Hp10 Hc Hc10); try assumption; try lia.
+  - rewrite nth_error_app2 by lia. replace (S (length m) - length m)%nat with 1%nat by lia. cbn [nth_error].
+    rewrite Hrs. cbn [r_icase r_lbeg r_lend r_wbeg r_wend]. unfold ic. change RE_ICASE with 1. rewrite <- land1_b2z. reflexivity.
+  - unfold str_at. rewrite nth_error_app2 by lia. replace (S (S (length m)) - length m)%nat with 2%nat by lia. cbn [nth_error].
+    rewrite Hrs. reflexivity.
+  - apply Hold. exact Hsb.
+  - apply Hold. exact Hgb.
+Qed.
+Print Assumptions tr_rstr_make_find_spec.
+
+(* ------------------------------------------------------------------ rstr_free (simple patterns): the literal and the struct are freed *)
+Theorem tr_rstr_free_simple (m : mem) rb bs ic lb le wb we (blk : block) d fuel :
+  nth_error m rb = Some (rstr_block bs ic lb le wb we) -> nth_error m bs = Some blk -> blk <> [] -> rb <> bs ->
+  callf cprog fuel (S d) F_rstr_free [VPtr rb 0] m = Ok (VUndef, upd (upd m bs []) rb []).
+Proof.
+  intros Hrb Hbs Hne Hd. assert (Lbs : (bs < length m)%nat) by (apply nth_error_Some; congruence).
+  enter F_rstr_free cf_rstr_free. xs.
+  destruct (ld7 _ _ _ _ _ _ _ _ _ Hrb) as (L0 & L1 & _). rewrite L0. xs. rewrite L1. xs.
+  rewrite (free_ok m bs blk Hbs Hne). xs.
+  assert (Hrb1 : nth_error (upd m bs []) rb = Some (rstr_block bs ic lb le wb we)) by (rewrite mem_upd_other by (auto; congruence); exact Hrb).
+  rewrite (free_ok _ rb _ Hrb1) by discriminate. xs. reflexivity.
+Qed.
+Print Assumptions tr_rstr_free_simple.
+
+Lemma upd_app_at {A} (m t : list A) k x : upd (m ++ t) (length m + k) x = m ++ upd t k x.
+Proof.
+  unfold upd. rewrite firstn_app, skipn_app. rewrite firstn_all2, skipn_all2 by lia.
+  replace (length m + k - length m)%nat with k by lia. replace (S (length m + k) - length m)%nat with (S k) by lia.
+  cbn [app]. rewrite <- app_assoc. reflexivity.
+Qed.
+
+(* make, then free: every block rstr_make allocated for a simple pattern is empty again, except the cell c2clite gives the parameter `re` *)
+Corollary tr_rstr_make_free (m : mem) b (s : bytes) o flg d fuel :
+  str_at m b s -> nonul s -> (o <= length s)%nat -> nth_error m G_meta = Some gb_meta ->
+  Z.of_nat (length s) < 2147483647 -> (length s < fuel)%nat -> so_simple s o = true ->
+  exists m', callf cprog fuel (S (S d)) F_rstr_make [VPtr b (Z.of_nat o); VInt flg] m = Ok (VPtr (S (length m)) 0, m') /\
+    callf cprog fuel (S d) F_rstr_free [VPtr (S (length m)) 0] m' = Ok (VUndef, m ++ [[VPtr b (Z.of_nat o)]; []; []]).
+Proof.
+  intros Hs Hnn Ho Hlit Hmax Hf Hsim. eexists. split; [apply (tr_rstr_make_simple m b s o flg d fuel); assumption|].
+  rewrite (tr_rstr_free_simple _ (S (length m)) (S (S (length m))) (Z.land flg 1) (b2z (so_lbeg s o)) (b2z (so_lend s o)) (b2z (so_wbeg s o)) (b2z (so_wend s o)) (cstr_block (zb (so_lit s o)))).
+  - f_equal. f_equal. replace (S (S (length m))) with (length m + 2)%nat by lia. rewrite upd_app_at.
+    replace (S (length m)) with (length m + 1)%nat by lia. rewrite upd_app_at. reflexivity.
+  - rewrite nth_error_app2 by lia. replace (S (length m) - length m)%nat with 1%nat by lia. reflexivity.
+  - rewrite nth_error_app2 by lia. replace (S (S (length m)) - length m)%nat with 2%nat by lia. reflexivity.
+  - unfold cstr_block. destruct (map VInt (zb (so_lit s o))); discriminate.
+  - lia.
+Qed.
+
+(* ------------------------------------------------------------------ the general path: relative to rset_make / regfree (CLiteExt.callx) *)
+Lemma x_regfree_none : nth_error cprog X_regfree = None.
+Proof. vm_compute. reflexivity. Qed.
+Ltac enterx f cf :=
+  rewrite callx_S; cbn [nth_error cprog f cf fn_nparams fn_nlocals fn_body length Nat.eqb Nat.sub repeat app].
+Lemma ld_cell (m : mem) b (blk : block) o v : nth_error m b = Some blk -> nth_error blk (Z.to_nat o) = Some v -> 0 <= o -> load m b o = Ok v.
+Proof. intros Hm Hv Ho. unfold load. rewrite Hm. destruct (Z.ltb_spec o 0); [lia|]. rewrite Hv. reflexivity. Qed.
+
+(* void rset_free(struct rset *rs): for every oracle of regfree that leaves the struct and the two tables where they are:
+   setgrpcnt[], grp[] and the struct are freed, in this order; nothing else changes after regfree *)
+Theorem tr_rset_free ext (m m1 : mem) br re nv bg bsg gc (gblk sblk : block) u d fuel :
+  ext X_regfree [VPtr br 0] m = Ok (u, m1) ->
+  nth_error m1 br = Some [re; nv; VPtr bg 0; VPtr bsg 0; gc] -> nth_error m1 bg = Some gblk -> gblk <> [] ->
+  nth_error m1 bsg = Some sblk -> sblk <> [] -> br <> bg -> br <> bsg -> bg <> bsg ->
+  callx ext cprog fuel (S (S d)) F_rset_free [VPtr br 0] m = Ok (VUndef, upd (upd (upd m1 bsg []) bg []) br []).
+Proof.
+  intros Hx Hbr Hbg Hg0 Hbsg Hs0 D1 D2 D3.
+  assert (Lbg : (bg < length m1)%nat) by (apply nth_error_Some; congruence).
+  assert (Lbsg : (bsg < length m1)%nat) by (apply nth_error_Some; congruence).
+  enterx F_rset_free cf_rset_free. xs. rewrite callx_S, x_regfree_none, Hx. xs.
+  rewrite (ld_cell m1 br _ (0 + 1 * 3) _ Hbr eq_refl) by lia. xs.
+  rewrite (free_ok m1 bsg sblk Hbsg Hs0). xs.
+  assert (Hbr1 : nth_error (upd m1 bsg []) br = Some [re; nv; VPtr bg 0; VPtr bsg 0; gc]) by (rewrite mem_upd_other by (auto; congruence); exact Hbr).
+  rewrite (ld_cell _ br _ (0 + 1 * 2) _ Hbr1 eq_refl) by lia. xs.
+  assert (Hbg1 : nth_error (upd m1 bsg []) bg = Some gblk) by (rewrite mem_upd_other by (auto; congruence); exact Hbg).
+  rewrite (free_ok _ bg gblk Hbg1 Hg0). xs.
+  assert (Hbr2 : nth_error (upd (upd m1 bsg []) bg []) br = Some [re; nv; VPtr bg 0; VPtr bsg 0; gc]).
+  { rewrite mem_upd_other by (rewrite ?upd_length by lia; auto; congruence). exact Hbr1. }
+  rewrite (free_ok _ br _ Hbr2) by discriminate. xs. reflexivity.
+Qed.
+Print Assumptions tr_rset_free.
+
+(* rstr_free on a struct of the general path (rs != NULL, str == NULL): rset_free(rs->rs), free(NULL), free(rs); relative to the call of rset_free *)
+Theorem tr_rstr_free_general ext (m m1 : mem) rb br c2 c3 c4 c5 c6 u D fuel :
+  nth_error m rb = Some [VPtr br 0; VInt 0; c2; c3; c4; c5; c6] ->
+  callx ext cprog fuel D F_rset_free [VPtr br 0] m = Ok (u, m1) ->
+  nth_error m1 rb = Some [VPtr br 0; VInt 0; c2; c3; c4; c5; c6] ->
+  callx ext cprog fuel (S D) F_rstr_free [VPtr rb 0] m = Ok (VUndef, upd m1 rb []).
+Proof.
+  intros Hrb Hcall Hrb1. enterx F_rstr_free cf_rstr_free. xs.
+  destruct (ld7 _ _ _ _ _ _ _ _ _ Hrb) as (L0 & _). rewrite L0. xs. rewrite L0. xs. rewrite Hcall. xs.
+  destruct (ld7 _ _ _ _ _ _ _ _ _ Hrb1) as (_ & L1 & _). rewrite L1. xs. rewrite free_null. xs.
+  rewrite (free_ok m1 rb _ Hrb1) by discriminate. xs. reflexivity.
+Qed.
+Print Assumptions tr_rstr_free_general.
+
+(* rstr_make on a pattern the classifier rejects: it dispatches to rset_make(1, &re, flg) on exactly the memory rstr_simple left (the cell of
+   `re`, the struct with the four anchor flags the classifier wrote and str == NULL); stated for EVERY oracle and every answer of that call
+   that leaves the struct alone: a set -> the struct with rs = that set is returned; NULL -> the struct is freed and NULL returned. *)
+Theorem tr_rstr_make_general ext (m m4 : mem) b (s : bytes) o flg v d fuel :
+  str_at m b s -> nonul s -> (o <= length s)%nat -> nth_error m G_meta = Some gb_meta ->
+  Z.of_nat (length s) < 2147483647 -> (length s < fuel)%nat -> so_simple s o = false ->
+  let S0 := [VInt 0; VInt 0; VInt (Z.land flg 1); VInt (b2z (so_lbeg s o)); VInt (b2z (so_lend s o)); VInt (b2z (so_wbeg s o)); VInt (b2z (so_wend s o))] in
+  callx ext cprog fuel (S d) F_rset_make [VInt 1; VPtr (length m) 0; VInt flg] (m ++ [[VPtr b (Z.of_nat o)]; S0]) = Ok (v, m4) ->
+  nth_error m4 (S (length m)) = Some S0 -> (v = VInt 0 \/ exists br, v = VPtr br 0) ->
+  callx ext cprog fuel (S (S d)) F_rstr_make [VPtr b (Z.of_nat o); VInt flg] m
+  = match v with
+    | VPtr _ _ => Ok (VPtr (S (length m)) 0,
+                      upd m4 (S (length m)) [v; VInt 0; VInt (Z.land flg 1); VInt (b2z (so_lbeg s o)); VInt (b2z (so_lend s o)); VInt (b2z (so_wbeg s o)); VInt (b2z (so_wend s o))])
+    | _ => Ok (VInt 0, upd m4 (S (length m)) [])
+    end.
+Proof.
+  intros Hs Hnn Ho Hlit Hmax Hf Hsim S0 Hcall Hst Hv.
+  assert (Lb : (b < length m)%nat) by (apply nth_error_Some; unfold str_at in Hs; congruence).
+  assert (Lg : (G_meta < length m)%nat) by (apply nth_error_Some; congruence).
+  enterx F_rstr_make cf_rstr_make. rewrite rmk_head_ok. unfold rmk_tail; cbn [fn_body cf_rstr_make]. xs.
+  set (M := rmk_mem0 m b (Z.of_nat o) flg).
+  assert (Lm : length M = S (S (length m))) by (unfold M, rmk_mem0; rewrite app_length; cbn [length]; lia).
+  assert (H0 : nth_error M (length m) = Some [VPtr b (Z.of_nat o)]) by (unfold M, rmk_mem0; rewrite nth_error_app2 by lia; rewrite Nat.sub_diag; reflexivity).
+  assert (H1 : nth_error M (S (length m)) = Some [VInt 0; VInt 0; VInt (Z.land flg 1); VInt 0; VInt 0; VInt 0; VInt 0]).
+  { unfold M, rmk_mem0. rewrite nth_error_app2 by lia. replace (S (length m) - length m)%nat with 1%nat by lia. reflexivity. }
+  unfold load at 1. rewrite H0. cbn [Z.ltb Z.to_nat nth_error]. xs.
+  assert (HsM : str_at M b s) by (unfold str_at, M, rmk_mem0; rewrite nth_error_app1 by exact Lb; exact Hs).
+  assert (HlM : nth_error M G_meta = Some gb_meta) by (unfold M, rmk_mem0; rewrite nth_error_app1 by exact Lg; exact Hlit).
+  rewrite (callx_mono ext cprog fuel (S d) F_rstr_simple _ M _
+             (tr_rstr_simple M (S (length m)) _ _ _ _ _ _ _ b s o d fuel H1 HsM Hnn Ho ltac:(lia) HlM Hmax Hf)).
+  cbv zeta. rewrite Hsim. xs.
+  assert (EM : upd M (S (length m)) S0 = m ++ [[VPtr b (Z.of_nat o)]; S0]).
+  { unfold M, rmk_mem0. replace (S (length m)) with (length m + 1)%nat by lia. rewrite upd_app_at. reflexivity. }
+  fold S0. rewrite EM. rewrite Hcall. xs.
+  assert (L4 : (S (length m) < length m4)%nat) by (apply nth_error_Some; congruence).
+  destruct Hv as [->|[br ->]].
+  - xs. destruct (st7 _ _ _ _ _ _ _ _ _ (VInt 0) Hst) as (S0' & _). rewrite S0'. xs.
+    set (M5 := upd m4 _ _).
+    assert (Hst' : nth_error M5 (S (length m)) = Some S0) by (unfold M5; apply mem_upd_same; exact L4).
+    destruct (ld7 _ _ _ _ _ _ _ _ _ Hst') as (L0 & L1 & _). rewrite L0. xs. rewrite L1. xs.
+    rewrite (free_ok M5 _ _ Hst') by discriminate. xs. unfold M5. rewrite upd_upd by exact L4. reflexivity.
+  - xs. destruct (st7 _ _ _ _ _ _ _ _ _ (VPtr br 0) Hst) as (S0' & _). rewrite S0'. xs.
+    set (S1 := [VPtr br 0; VInt 0; VInt (Z.land flg 1); VInt (b2z (so_lbeg s o)); VInt (b2z (so_lend s o)); VInt (b2z (so_wbeg s o)); VInt (b2z (so_wend s o))]).
+    set (M5 := upd m4 _ _).
+    assert (Hst' : nth_error M5 (S (length m)) = Some S1) by (unfold M5; apply mem_upd_same; exact L4).
+    destruct (ld7 _ _ _ _ _ _ _ _ _ Hst') as (L0 & _). rewrite L0. xs. reflexivity.
+Qed.
+Print Assumptions tr_rstr_make_general.
